@@ -8,6 +8,7 @@ pub fn projection_ext(state: CompilationState, options: SliceOptions, proj: &str
         Some(("c04", n)) => crate::proj_c04::project(state, options, n),
         Some(("c05", n)) => crate::proj_c05::project(state, options, n),
         Some(("c08", n)) => crate::proj_c08::project(state, options, n),
+        Some(("c09", n)) => crate::proj_c09::project(state, options, n),
         Some(("c13", n)) => crate::proj_c13::project(state, options, n),
         Some(("c16", n)) => crate::proj_c16::project(state, options, n),
         Some(("c20", n)) => crate::proj_c20::project(state, options, n),
